@@ -1,3 +1,4 @@
+import NimaVerif.Lemmas.NameAgree
 import NimaVerif.Lemmas.MappingLaws
 /-!
 # C14 — the mapping API obeys the dictionary laws, and the text agrees with the mapping
@@ -23,6 +24,8 @@ Hypotheses that are used and why they are satisfiable:
   attrpath-derived bindings (`good_of_parse`) and by `from_dict` / new nested sets (empty order).
 -/
 namespace Nima.C14
+-- name tokens are compared by spelling in this file (see `NameCmp` in Model/Edit.lean)
+attribute [local instance] NameCmp.spelled
 
 open Node
 
@@ -545,5 +548,31 @@ example : ∀ op ∈ exOps, ∀ v, op.value? = some v → v.allSets Good = true 
 example : keysMap (runOps exOps exDoc).target = ["b".toList, "n".toList] ∧
     keysText (runOps exOps exDoc).target = ["b".toList, "n".toList] ∧
     keysTextScope (runOps exOps exDoc) = ["w".toList] := by decide
+
+/-! ## For the repaired code (`NameCmp.model`, i.e. lookups through `_same_attr_name`)
+
+Everything above is stated for the name comparison by spelling (`NameCmp.spelled`, declared at the head
+of this file). `setValue_model_eq_spelled` / `removeValue_model_eq_spelled` (Lemmas/NameAgree.lean) make
+it a statement about the model of the repaired code under the decidable side condition
+`NameAgree.noSpellingClash d p`: among the name tokens of the document and the keys of the path no two are
+different spellings of one Nix name. The single-operation theorems restated that way (hypotheses about
+lookups keep the comparison by spelling, which is the code's on such inputs): -/
+
+theorem repaired_set_is_spelled (p : Text) (v : ValueArg) (d : Doc) (hns : NameAgree.noSpellingClash d p) :
+    @setValue NameCmp.model p v d = setValue p v d := NameAgree.setValue_model_eq_spelled p v d hns
+
+theorem repaired_rm_is_spelled (p : Text) (d : Doc) (hns : NameAgree.noSpellingClash d p) :
+    @removeValue NameCmp.model p d = removeValue p d := NameAgree.removeValue_model_eq_spelled p d hns
+
+/-- the mapping API on one set object: `m[k]`, `m[k] = v`, `del m[k]` of the repaired code are the
+    by-spelling ones when no name token of the set and no reading of the key are different spellings
+    of one name -/
+theorem repaired_mapping_is_spelled (s : Node) (key : Text) (v : Node)
+    (hns : NameAgree.NoSpellingClash (NameAgree.toks s ++ NameAgree.keyToks key)) :
+    @setGetItem NameCmp.model s key = setGetItem s key ∧
+    @setSetItem NameCmp.model s key v = setSetItem s key v ∧
+    @setDelItem NameCmp.model s key = setDelItem s key :=
+  NameAgree.mapping_model_eq_spelled s key v hns
+
 
 end Nima.C14
